@@ -136,7 +136,7 @@ Definition short_keys (mp : nmap) : Prop := forall m, denotes m mp -> (max_key_l
    roots trie.New treats as "empty" must not collide with a non-empty content;
    Iterate: keys of at most 48 bytes (the model's iteration fuel is 200); Prove:
    the empty trie is excluded (known finding prove-empty-trie-absence-not-verifiable) *)
-Definition lazy_op (mp : nmap) (sn : snaps) (o : op) : Prop :=
+Definition lazy_op (d : db) (mp : nmap) (sn : snaps) (o : op) : Prop :=
   match o with
   | OpUpdate _ _ | OpDelete _ | OpGet _ => True
   | OpHash | OpCommit => fits_map mp
@@ -144,19 +144,21 @@ Definition lazy_op (mp : nmap) (sn : snaps) (o : op) : Prop :=
   | OpReopen r =>
     match find_snap r sn with
     | Some mpr => (r = zero_hash \/ r = empty_root H) -> forall k, mpr k = None
-    | None => False
+    | None =>   (* a root that was never committed: nothing is stored under it *)
+      db_get d (to_hash r) = None /\ r <> zero_hash /\ r <> empty_root H
     end
   | OpIterate => fits_map mp /\ short_keys mp
   | OpProve _ => fits_map mp /\ nonempty_map mp
   end.
 (* what each operation must observe, given the map before it *)
-Definition lazy_obs (mp : nmap) (o : op) (ob : obs) : Prop :=
+Definition lazy_obs (mp : nmap) (sn : snaps) (o : op) (ob : obs) : Prop :=
   match o with
   | OpGet k => ob = OVal (mp (hexk k))
   | OpHash | OpCommit => exists m, denotes m mp /\ ob = ORoot (mpt_root_hex H (content_of m))
   | OpIterate => exists m l, denotes m mp /\ ob = OList l /\
                    map snd l = map snd (content_of m) /\ map (fun kv => hexk (fst kv)) l = map fst (content_of m)
   | OpProve k => exists p, ob = OProof p (Ok (mp (hexk k)))
+  | OpReopen r => ob = match find_snap r sn with Some _ => ODone | None => OMissing end
   | _ => ob = ODone
   end.
 (* the side conditions along the actual run (the roots a reopen may use are the
@@ -164,13 +166,13 @@ Definition lazy_obs (mp : nmap) (o : op) (ob : obs) : Prop :=
 Fixpoint lazy_ok (s : state) (mp : nmap) (sn : snaps) (ops : list op) : Prop :=
   match ops with
   | [] => True
-  | o :: rest => lazy_op mp sn o /\
+  | o :: rest => lazy_op (sdb s) mp sn o /\
                  lazy_ok (fst (step H s o)) (gmap mp sn o) (gsnaps mp sn o (snd (step H s o))) rest
   end.
 Fixpoint lazy_trace (mp : nmap) (sn : snaps) (ops : list op) (obl : list obs) : Prop :=
   match ops, obl with
   | [], [] => True
-  | o :: r, ob :: obr => lazy_obs mp o ob /\ lazy_trace (gmap mp sn o) (gsnaps mp sn o ob) r obr
+  | o :: r, ob :: obr => lazy_obs mp sn o ob /\ lazy_trace (gmap mp sn o) (gsnaps mp sn o ob) r obr
   | _, _ => False
   end.
 
@@ -205,14 +207,25 @@ Proof.
   - exists k, v. rewrite <- Hl. cbn [lookup fst snd]. now rewrite bytes_eqb_refl.
 Qed.
 
-Lemma rep_reopen d mp sn r : Forall (snap_ok d) sn -> lazy_op mp sn (OpReopen r) ->
-  exists t mpr, find_snap r sn = Some mpr /\ trie_new H r d = Ok t /\ rep d mpr t /\ evenmap mpr.
+(* trie.New on a root under which nothing is stored: MissingNodeError *)
+Lemma trie_new_missing d r : db_get d (to_hash r) = None -> r <> zero_hash -> r <> empty_root H ->
+  trie_new H r d = Missing.
 Proof.
-  intros Hsn Ho. cbn [lazy_op] in Ho. destruct (find_snap r sn) as [mpr|] eqn:Ef; [|contradiction].
+  intros Hg Hz He. unfold trie_new.
+  destruct (bytes_eqb_spec r zero_hash) as [|_]; [contradiction|].
+  destruct (bytes_eqb_spec r (empty_root H)) as [|_]; [contradiction|].
+  cbn [orb]. unfold resolve_hash. now rewrite Hg.
+Qed.
+
+Lemma rep_reopen d (sn : snaps) r mpr : Forall (snap_ok d) sn -> find_snap r sn = Some mpr ->
+  ((r = zero_hash \/ r = empty_root H) -> forall k, mpr k = None) ->
+  exists t, trie_new H r d = Ok t /\ rep d mpr t /\ evenmap mpr.
+Proof.
+  intros Hsn Ef Ho.
   pose proof (find_snap_in _ _ _ Ef) as Hin. rewrite Forall_forall in Hsn.
   destruct (Hsn _ Hin) as (m & Hd & Er & He & Hav). cbn [fst snd] in *.
   destruct (is_nil m) eqn:En.
-  - destruct m; try discriminate. cbn in Er. subst r. exists empty_trie, mpr. repeat split; auto.
+  - destruct m; try discriminate. cbn in Er. subst r. exists empty_trie. repeat split; auto.
     + apply trie_new_empty.
     + exists NNil. split; [exact Hd|apply lazy_empty].
   - assert (Hn : m <> NNil) by (intros ->; discriminate).
@@ -220,7 +233,7 @@ Proof.
     { destruct (denotes_nonempty _ _ Hd Hn) as (k0 & v0 & E0).
       split; intros E; rewrite (Ho (ltac:(auto)) k0) in E0; discriminate. }
     rewrite Er in Hz. destruct (trie_new_lazy H Hlen d _ (Hav Hn) (proj1 Hz) (proj2 Hz)) as (t & E & Hl).
-    exists t, mpr. rewrite Er. repeat split; auto. exists m. auto.
+    exists t. rewrite Er. repeat split; auto. exists m. auto.
 Qed.
 
 Lemma rep_iterate d mp t : rep d mp t -> fits_map mp -> short_keys mp -> evenmap mp -> db_sound H d ->
@@ -258,8 +271,8 @@ Proof.
   exists r, t', p. repeat split; auto. rewrite Er, Ev. destruct Hd as [_ Hl]. now rewrite Hl.
 Qed.
 
-Lemma lazy_step : forall s o mp sn, inv s mp sn -> lazy_op mp sn o ->
-  exists s' ob, step H s o = (s', ob) /\ inv s' (gmap mp sn o) (gsnaps mp sn o ob) /\ lazy_obs mp o ob.
+Lemma lazy_step : forall s o mp sn, inv s mp sn -> lazy_op (sdb s) mp sn o ->
+  exists s' ob, step H s o = (s', ob) /\ inv s' (gmap mp sn o) (gsnaps mp sn o ob) /\ lazy_obs mp sn o ob.
 Proof.
   intros s o mp sn (Hr & Hs & He & Hsn) Ho.
   destruct o as [k v|k|k| | |r|l| |k]; cbn [step gmap].
@@ -287,9 +300,13 @@ Proof.
     constructor.
     + exists m. cbn [fst snd]. auto.
     + eapply Forall_impl; [|exact Hsn]. intros e. now apply snap_ok_mono.
-  - destruct (rep_reopen (sdb s) mp sn r Hsn Ho) as (t & mpr & Ef & E & Hr' & He'). rewrite E, Ef.
-    eexists _, _. split; [reflexivity|]. split; [|reflexivity].
-    repeat split; cbn [sdb strie gsnaps]; auto.
+  - cbn [lazy_op lazy_obs] in *. destruct (find_snap r sn) as [mpr|] eqn:Ef.
+    + destruct (rep_reopen (sdb s) sn r mpr Hsn Ef Ho) as (t & E & Hr' & He'). rewrite E.
+      eexists _, _. split; [reflexivity|]. split; [|reflexivity].
+      repeat split; cbn [sdb strie gsnaps]; auto.
+    + destruct Ho as (Hg & Hz & Hne). rewrite (trie_new_missing _ _ Hg Hz Hne). cbn [obs_of_fail].
+      eexists _, _. split; [reflexivity|]. split; [|reflexivity].
+      repeat split; cbn [gsnaps]; auto.
   - cbn [lazy_op] in Ho. eexists _, _. split; [reflexivity|]. split; [|reflexivity].
     repeat split; cbn [sdb strie gsnaps lmap]; auto.
     destruct Hr as (m & Hd & Hz). exists m. split; [exact Hd|]. now apply lazy_set_limit.
